@@ -303,7 +303,7 @@ Lemma query_rename_parse raw old new :
   plain_name old = true -> plain_name new = true ->
   parse_query (query_rename raw old new) = map (rename_pair old new) (parse_query raw).
 Proof.
-  intros Ho Hn. unfold query_rename. destruct (mem old (map fst (parse_query raw))) eqn:Em.
+  intros Ho Hn. unfold query_rename, rename_raw. destruct (mem old (map fst (parse_query raw))) eqn:Em.
   - unfold parse_query.
     assert (HF : Forall (no_byte 38) (map (rename_seg old new) (split_byte 38 raw))).
     { apply Forall_forall. intros x Hx. apply in_map_iff in Hx. destruct Hx as [s [<- Hs]].
@@ -351,9 +351,84 @@ Proof.
 Qed.
 
 
+(* ---- the cached parsed query ---- *)
+Lemma has_key_set k k' vs m : has_key k (hdr_set k' vs m) = bytes_eqb k k' || has_key k m.
+Proof.
+  unfold has_key. induction m as [|[k0 v0] r IH]; cbn [hdr_set existsb fst].
+  - rewrite orb_false_r. reflexivity.
+  - destruct (bytes_eqb k' k0) eqn:E.
+    + apply bytes_eqb_eq in E. subst k0. cbn [existsb fst]. destruct (bytes_eqb k k'); reflexivity.
+    + destruct (bytes_ltb k' k0); cbn [existsb fst]; [reflexivity|]. rewrite IH.
+      destruct (bytes_eqb k k0), (bytes_eqb k k'); reflexivity.
+Qed.
+Lemma has_key_qmap_gen pairs acc k :
+  has_key k (fold_left (fun m kv => hdr_add (fst kv) (snd kv) m) pairs acc) = mem k (map fst pairs) || has_key k acc.
+Proof.
+  revert acc. induction pairs as [|[k0 v0] r IH]; intros acc; cbn [fold_left map fst snd].
+  - reflexivity.
+  - rewrite IH. unfold hdr_add. rewrite has_key_set. unfold mem. cbn [existsb].
+    destruct (existsb (bytes_eqb k) (map fst r)), (bytes_eqb k k0), (has_key k acc); reflexivity.
+Qed.
+Lemma has_key_qmap pairs k : has_key k (qmap_of pairs) = mem k (map fst pairs).
+Proof. unfold qmap_of. rewrite has_key_qmap_gen. apply orb_false_r. Qed.
+Lemma has_key_del k k' m : has_key k (hdr_del k' m) = negb (bytes_eqb k' k) && has_key k m.
+Proof.
+  unfold has_key, hdr_del. induction m as [|[k0 v0] r IH]; cbn [filter existsb fst].
+  - rewrite andb_false_r. reflexivity.
+  - destruct (bytes_eqb k' k0) eqn:E; cbn [negb existsb fst].
+    + apply bytes_eqb_eq in E. subst k0. rewrite IH.
+      destruct (bytes_eqb k' k) eqn:E2.
+      * reflexivity.
+      * cbn [negb andb]. destruct (bytes_eqb k k') eqn:E3; [|reflexivity].
+        apply bytes_eqb_eq in E3. subst k'. rewrite bytes_eqb_refl in E2. discriminate.
+    + rewrite IH. destruct (bytes_eqb k k0) eqn:E2; [|reflexivity].
+      apply bytes_eqb_eq in E2. subst k0. rewrite E. reflexivity.
+Qed.
+Lemma has_key_fold_del keys m k : In k keys -> has_key k (fold_left (fun m k => hdr_del k m) keys m) = false.
+Proof.
+  assert (Hmono : forall keys m, has_key k m = false -> has_key k (fold_left (fun m k => hdr_del k m) keys m) = false).
+  { intros ks. induction ks as [|k0 r IH]; intros m0 H; [exact H|]. cbn [fold_left]. apply IH.
+    rewrite has_key_del, H. apply andb_false_r. }
+  revert m. induction keys as [|k0 r IH]; intros m H; [contradiction|]. cbn [fold_left].
+  destruct H as [-> | H].
+  - apply Hmono. rewrite has_key_del, bytes_eqb_refl. reflexivity.
+  - apply IH. exact H.
+Qed.
+
+(* rw_do (one action on a fresh request) written out *)
+Lemma rw_do_spec c params u :
+  rw_do c params u =
+  let p0 := nth 0 params [] in
+  let p1 := nth 1 params [] in
+  match c with
+  | HostSet => mkUrl p0 (u_path u) (u_query u)
+  | HostFromPath => host_from_path u
+  | HostSuffixReplace => host_suffix_replace u p0 p1
+  | PathSet => mkUrl (u_host u) p0 (u_query u)
+  | PathPrefixAdd => path_prefix_add u p0
+  | PathPrefixTrim => path_prefix_trim u p0
+  | QueryAdd => mkUrl (u_host u) (u_path u) (query_add (u_query u) p0 p1)
+  | QueryRename => mkUrl (u_host u) (u_path u) (query_rename (u_query u) p0 p1)
+  | QueryDel => mkUrl (u_host u) (u_path u) (query_del (u_query u) params)
+  | QueryDelAllExcept => mkUrl (u_host u) (u_path u) (query_del_all_except (u_query u) params)
+  end.
+Proof.
+  destruct c; unfold rw_do, rw_step; cbn [s_url s_cache]; try reflexivity.
+  unfold cache_of. cbn [s_url s_cache]. rewrite has_key_qmap. unfold query_rename.
+  destruct (mem (nth 0 params []) (map fst (parse_query (u_query u)))); [reflexivity|]. destruct u; reflexivity.
+Qed.
+
+Lemma cache_effect_model c p u : cache_effect c p (s_cache (rw_step c p (mkSt u None))) = true.
+Proof.
+  destruct c; unfold cache_effect, rw_step; cbn [s_url s_cache]; try reflexivity.
+  - (* QUERY_DEL *) apply forallb_forall. intros k Hk. apply negb_true_iff. apply has_key_fold_del. exact Hk.
+  - (* QUERY_DEL_ALL_EXCEPT *) apply forallb_forall. intros kv Hkv. apply filter_In in Hkv. apply Hkv.
+Qed.
+
 Lemma rw_effect_model c p u : rw_effect c p u (rw_do c p u) = true.
 Proof.
-  destruct c; unfold rw_effect, rw_do; cbn [u_host u_path u_query];
+  rewrite rw_do_spec.
+  destruct c; unfold rw_effect; cbn [u_host u_path u_query];
     try (apply url_eqb_refl); try (rewrite !bytes_eqb_refl; reflexivity).
   - (* HOST_SUFFIX_REPLACE *)
     unfold host_suffix_replace, has_suffix, trim_suffix.
@@ -408,20 +483,26 @@ Qed.
 
 Definition doc_header_fact (ca : bytes * Z) : bool :=
   match assoc (fst ca) header_check_table with Some ar => ar =? snd ca | None => false end
-  && match header_cmd (fst ca) with Some (_, HSet) | Some (_, HAdd) | Some (_, HDel) => true | _ => false end.
+  && match header_cmd (fst ca) with
+     | Some (_, HSet) | Some (_, HAdd) => negb (snd ca =? 1)
+     | Some (_, HDel) => true
+     | _ => false
+     end.
 Lemma doc_header_facts : forallb doc_header_fact doc_header = true.
 Proof. vm_compute. reflexivity. Qed.
 Lemma valid_header_accepted c p :
   valid_header_conf c p = true -> header_accepts c p = true /\ header_cmd c <> None.
 Proof.
   unfold valid_header_conf. destruct (assoc c doc_header) as [ar|] eqn:E; [|discriminate].
-  intros H. apply andb_true_iff in H. destruct H as [Hl Hne].
+  intros H. apply andb_true_iff in H. destruct H as [H Hv]. apply andb_true_iff in H. destruct H as [Hl Hne].
   apply assoc_In in E. pose proof doc_header_facts as HF. rewrite forallb_forall in HF.
   specialize (HF _ E). unfold doc_header_fact in HF. cbn [fst snd] in HF.
   apply andb_true_iff in HF. destruct HF as [Ht Hc].
   unfold header_accepts, table_accepts.
   destruct (assoc c header_check_table) as [ar'|]; [|discriminate]. apply Z.eqb_eq in Ht. subst ar'.
-  rewrite Hl, Hne, orb_true_r. cbn [andb]. destruct (header_cmd c) as [[b []]|]; try discriminate; split; try reflexivity; discriminate.
+  rewrite Hl, Hne, orb_true_r. cbn [andb].
+  destruct (header_cmd c) as [[b []]|]; try discriminate; split; try reflexivity; try discriminate;
+    apply negb_true_iff in Hc; rewrite Hc in Hv; exact Hv.
 Qed.
 
 Definition doc_redirect_fact (c : bytes) : bool :=
@@ -487,14 +568,17 @@ Proof.
   destruct (header_cmd c) as [[is_req hc]|]; [|discriminate].
   destruct is_req; intros H; injection H as <- <-; rewrite hdr_eqb_refl; cbn [andb]; apply hdr_effect_model.
 Qed.
-Lemma rewrite_effect_model c p u : rewrite_effect c p u (action_do c p u) = true.
-Proof. unfold rewrite_effect, action_do. destruct (rw_cmd_of c); [apply rw_effect_model|reflexivity]. Qed.
-Lemma direct_effect_model c p u h u' h' :
-  direct_run c p u h = Some (u', h') -> direct_effect (to_upper c) p u h u' h' = true.
+Lemma rewrite_effect_st_model c p u : rewrite_effect_st c p u (action_step c p (mkSt u None)) = true.
+Proof.
+  unfold rewrite_effect_st, action_step. destruct (rw_cmd_of c) as [rc|]; [|reflexivity].
+  pose proof (rw_effect_model rc p u) as H. unfold rw_do in H. rewrite H, cache_effect_model. reflexivity.
+Qed.
+Lemma direct_effect_model c p u h st' h' :
+  direct_run c p u h = Some (st', h') -> direct_effect (to_upper c) p u h st' h' = true.
 Proof.
   unfold direct_run, direct_effect. destruct (action_file_check c p); [|discriminate].
-  destruct (header_cmd (to_upper c)) as [[[] []]|]; intros H; injection H as <- <-;
-    rewrite ?url_eqb_refl, ?hdr_eqb_refl; cbn [andb]; try apply hdr_effect_model; apply rewrite_effect_model.
+  destruct (header_cmd (to_upper c)) as [[[] []]|]; intros H; injection H as <- <-; cbn [s_url];
+    rewrite ?url_eqb_refl, ?hdr_eqb_refl; cbn [andb]; try apply hdr_effect_model; apply rewrite_effect_st_model.
 Qed.
 Lemma valid_rewrite_checked c p : valid_rewrite_conf c p = true -> action_file_check c p = true.
 Proof.
@@ -509,10 +593,10 @@ Qed.
 
 Lemma spec_model ci : spec ci (model ci) = true.
 Proof.
-  destruct ci as [c p u | c p a b vars | c p u | c p u h]; unfold model, spec.
+  destruct ci as [c p u | c p a b vars | c p u | c p u h | rs u]; unfold model, spec.
   - destruct (rewrite_run c p u) as [u'|] eqn:E.
     + unfold rewrite_run in E. destruct (rewrite_accepts c p); [|discriminate]. injection E as <-.
-      unfold rewrite_effect, action_do. destruct (rw_cmd_of (to_upper c)); [apply rw_effect_model|reflexivity].
+      apply rewrite_effect_st_model.
     + unfold rewrite_run in E. destruct (rewrite_accepts c p) eqn:Ea; [discriminate|].
       apply negb_true_iff. destruct (valid_rewrite_conf c p) eqn:Ev; [|reflexivity].
       rewrite (valid_rewrite_accepted _ _ Ev) in Ea. discriminate.
@@ -531,6 +615,12 @@ Proof.
     + apply negb_true_iff. destruct (valid_rewrite_conf c p) eqn:Ev; [|reflexivity].
       unfold direct_run in E. rewrite (valid_rewrite_checked _ _ Ev) in E.
       destruct (header_cmd (to_upper c)) as [[[] []]|]; discriminate.
+  - destruct (rewrite_rules_run rs u) as [st|] eqn:E; [reflexivity|].
+    apply negb_true_iff. unfold rewrite_rules_run in E. destruct (rules_accept rs) eqn:Ea; [discriminate|].
+    destruct (forallb (fun r : rw_rule => forallb (fun a => valid_rewrite_conf (fst a) (snd a)) (snd r)) rs) eqn:Ev; [|exact Ev]. exfalso.
+    assert (rules_accept rs = true); [|congruence].
+    unfold rules_accept. apply forallb_forall. intros r Hr. rewrite forallb_forall in Ev. specialize (Ev r Hr).
+    apply forallb_forall. intros a Ha. rewrite forallb_forall in Ev. apply valid_rewrite_accepted. apply Ev. exact Ha.
 Qed.
 
 (* ---- wire round trip ---- *)
@@ -545,17 +635,30 @@ Proof.
   induction h as [|[k vs] r IH]; [reflexivity|].
   cbn [map fst snd]. unfold dec_hkv at 1. rewrite as_LB_vLB. cbn [all_some]. rewrite IH. reflexivity.
 Qed.
+Lemma dec_enc_st st : dec_st (enc_st st) = Some st.
+Proof.
+  destruct st as [[h p q] [m|]]; unfold enc_st, dec_st, enc_cache, dec_cache; cbn [s_url s_cache u_host u_path u_query].
+  - pose proof (dec_enc_hdr m) as Hm. unfold enc_hdr in *. rewrite Hm. reflexivity.
+  - reflexivity.
+Qed.
+Lemma dec_out_st ci st : (match ci with IRewrite _ _ _ | IRules _ _ => True | _ => False end) ->
+  dec_out ci (enc_st st) = Some (OUrl st).
+Proof.
+  intros H. pose proof (dec_enc_st st) as Hs. destruct ci; try contradiction;
+    unfold dec_out; unfold enc_st in *; rewrite Hs; reflexivity.
+Qed.
 Lemma dec_enc_out ci : dec_out ci (enc_out (model ci)) = Some (model ci).
 Proof.
-  destruct ci as [c p u | c p a b vars | c p u | c p u h0]; unfold model.
-  - destruct (rewrite_run c p u) as [[h pa q]|]; reflexivity.
+  destruct ci as [c p u | c p a b vars | c p u | c p u h0 | rs u]; unfold model.
+  - destruct (rewrite_run c p u) as [st|]; [|reflexivity]. apply dec_out_st. exact I.
   - destruct (header_run vars c p a b) as [[a' b']|]; [|reflexivity].
     pose proof (dec_enc_hdr a') as Ha. pose proof (dec_enc_hdr b') as Hb.
     unfold enc_out, dec_out. unfold enc_hdr in *. rewrite Ha, Hb. reflexivity.
   - destruct (redirect_run c p u) as [t|]; reflexivity.
-  - destruct (direct_run c p u h0) as [[[h pa q] h']|]; [|reflexivity].
-    pose proof (dec_enc_hdr h') as Hb.
-    unfold enc_out, dec_out. unfold enc_hdr in *. cbn [enc_url dec_url u_host u_path u_query]. rewrite Hb. reflexivity.
+  - destruct (direct_run c p u h0) as [[st h']|]; [|reflexivity].
+    pose proof (dec_enc_hdr h') as Hb. pose proof (dec_enc_st st) as Hs.
+    unfold enc_out, dec_out. unfold enc_hdr, enc_st in *. rewrite Hs, Hb. reflexivity.
+  - destruct (rewrite_rules_run rs u) as [st|]; [|reflexivity]. apply dec_out_st. exact I.
 Qed.
 
 Lemma prop_C49_of_model i : wf_C49 i = true -> prop_C49 i (run_C49 i) = true.
@@ -568,5 +671,5 @@ Definition ex_corpus_case : val :=
   VL [VZ 1; VB (bs "QUERY_DEL"%string); VL [VB (bs "a"%string)];
       VL [VB (bs "example.com"%string); VB (bs "/"%string); VB (bs "%61=1&b=2&a&a=3"%string)]].
 Lemma wf_example : wf_C49 ex_corpus_case = true /\ kf_C49 ex_corpus_case = 0
-  /\ run_C49 ex_corpus_case = VL [VB (bs "example.com"%string); VB (bs "/"%string); VB (bs "b=2"%string)].
+  /\ run_C49 ex_corpus_case = VL [VB (bs "example.com"%string); VB (bs "/"%string); VB (bs "b=2"%string); VL [VL [VL [VB (bs "b"%string); VL [VB (bs "2"%string)]]]]].
 Proof. vm_compute. repeat split. Qed.
